@@ -1,3 +1,4 @@
+import Pyunicorn.Generated.ArithC17
 /-
 Models of pyunicorn's randomisation kernels (property C17).  Core Lean only.
 
@@ -19,8 +20,14 @@ Cython (`boundscheck=True`), out-of-range reads are modelled as `none`
 Distances are integers: the harness sends distance matrices and tolerances
 whose entries are multiples of a power of two (exact in float32), scaled to
 integers; the conditions only use `|x - y| < eps`, which is scale invariant.
+
+Index and size expressions of the Python-level code (`Network.BarabasiAlbert`,
+`InteractingNetworks.RandomlySetCrossLinks(_sparse)`) are *not written here*: they are
+the definitions `translate/gen_arith.py` regenerates from the current source on every
+run (`Generated/ArithC17.lean`).
 -/
 namespace Pyunicorn.Random
+open Pyunicorn.Generated.ArithC17
 
 abbrev Adj := Nat → Nat → Bool
 
@@ -172,37 +179,40 @@ structure BASt where
   j : Nat
   it : Nat
 
-/-- state before the `for j` loop: star `0 — 1..m`, `targets = [0]*m ++ [1..m] ++ zeros` -/
+/-- state before the `for j` loop.  `A[0, lo:hi] = A[lo:hi, 0] = 1` (slices clip at `N`),
+`targets = zeros(len)`, `targets[lo':hi'] = range(1, 1+m)`, `n_targets`, first new node —
+all bounds are the generated expressions. -/
 def baInit (N m : Nat) : BASt :=
-  { A := fun a b => (a == 0 && decide (1 ≤ b ∧ b < 1 + m ∧ b < N)) ||
-                    (b == 0 && decide (1 ≤ a ∧ a < 1 + m ∧ a < N))
-    targets := List.replicate m 0 ++ (List.range m).map (· + 1) ++
-                 List.replicate (2 * m * (N - m) - 2 * m) 0
+  { A := fun a b =>
+      (a == 0 && decide (baStarLo m ≤ (b : Int) ∧ (b : Int) < baStarHi m ∧ b < N)) ||
+      (b == 0 && decide (baStarLo m ≤ (a : Int) ∧ (a : Int) < baStarHi m ∧ a < N))
+    targets := (List.range (baTargetsLen N m).toNat).map fun (p : Nat) =>
+      if baInitLo m ≤ (p : Int) ∧ (p : Int) < baInitHi m then p - (baInitLo m).toNat + 1 else 0
     lastChild := fun _ => 0
-    nTargets := 2 * m
-    j := 1 + m
+    nTargets := (baNTargets0 m).toNat
+    j := (baFirstNew m).toNat
     it := 0 }
 
 /-- one pass through the `while True` body with drawn index `idx = int(uniform(0, n_targets))`;
-`none` = IndexError -/
+`none` = IndexError (`targets[idx]`, `targets[n_targets + it] = i`) -/
 def baStep (N m : Nat) (st : BASt) (idx : Nat) : Option BASt :=
   if st.j < N ∧ st.it < m then
     match st.targets[idx]? with
     | none => none
     | some i =>
       if st.lastChild i != st.j then
-        if st.nTargets + st.it < st.targets.length then
+        if (baStoreIdx st.nTargets st.it).toNat < st.targets.length then
           let st1 : BASt :=
             { st with A := (st.A.set i st.j true).set st.j i true
-                      targets := st.targets.set (st.nTargets + st.it) i
+                      targets := st.targets.set (baStoreIdx st.nTargets st.it).toNat i
                       lastChild := fun x => if x = i then st.j else st.lastChild x
                       it := st.it + 1 }
-          -- end of the `for it` loop: `targets[n_targets+m : n_targets+2m] = j`
+          -- end of the `for it` loop: `targets[n_targets+m : n_targets+2m] = j` (a slice: clips)
           if st1.it = m then
             some { st1 with
-                   targets := (List.range m).foldl
-                     (fun ts q => ts.set (st.nTargets + m + q) st.j) st1.targets
-                   nTargets := st.nTargets + 2 * m
+                   targets := (List.range (baFillHi st.nTargets m - baFillLo st.nTargets m).toNat).foldl
+                     (fun ts q => ts.set ((baFillLo st.nTargets m).toNat + q) st.j) st1.targets
+                   nTargets := (baNTargetsNext st.nTargets m).toNat
                    j := st.j + 1
                    it := 0 }
           else some st1
@@ -213,5 +223,92 @@ def baStep (N m : Nat) (st : BASt) (idx : Nat) : Option BASt :=
 def baRun (N m : Nat) : List Nat → BASt → Option BASt
   | [], st => some st
   | d :: ds, st => (baStep N m st d).bind (baRun N m ds)
+
+/-! ## the public methods around the kernels
+
+What the Python wrappers compute before / after they call a kernel: the edge list,
+`E`, the `degree` array (geo models), the cross adjacency, the list of cross links, the
+number of links to set, the number of swaps (cross links), the rebuilt adjacency
+(`set_edge_list`, used by `Network.randomly_rewire`) and the whole of
+`set_random_links_by_distance`. -/
+
+/-- row-major list of the cells `(i, j)`, `i < m`, `j < n`, with `P i j` — the order of
+`numpy.nonzero` and of `igraph.Graph.get_edgelist()` of a graph built from an adjacency matrix -/
+def enumOnes (m n : Nat) (P : Nat → Nat → Bool) : List (Nat × Nat) :=
+  (List.range m).flatMap fun i => ((List.range n).filter fun j => P i j).map fun j => (i, j)
+
+/-- `np.array(self.graph.get_edgelist())`: every link once, smaller index first -/
+def edgeList (n : Nat) (A : Adj) : List (Nat × Nat) :=
+  enumOnes n n fun i j => decide (i < j) && A i j
+
+/-- `np.array(cross_A.nonzero()).transpose()` -/
+def onesList (m n : Nat) (C : Adj) : List (Nat × Nat) := enumOnes m n C
+
+/-- `network.cross_adjacency(nodes1, nodes2)` = `A[nodes1, :][:, nodes2]` -/
+def crossBlock (A : Adj) (nodes1 nodes2 : List Nat) : Adj := fun i j =>
+  match nodes1[i]?, nodes2[j]? with
+  | some x, some y => A x y
+  | _, _ => false
+
+/-- `SpatialNetwork.randomly_rewire_geomodel_I/II/III`: `E = n_links` is the length of the
+edge list, `edges = graph.get_edgelist()`, `degree = self.degree()` (row sums);
+the new adjacency is what the kernel left in `A`. -/
+def geoMethod (mode : GeoMode) (D : Nat → Nat → Int) (eps : Int) (n : Nat) (A : Adj)
+    (iterations : Nat) (draws : List (Nat × Nat)) : Option GeoSt :=
+  geoRun { mode := mode, D := D, eps := eps, degree := fun v => deg A n v } iterations draws
+    ⟨A, edgeList n A, 0⟩
+
+/-- the number of cross links `RandomlySetCrossLinks` asks the kernel for:
+`cross_link_density` has priority, then the explicit number, else (null model) the current
+number; a number above `N1·N2` falls back to the current number (`density`/`tooMany` are
+the generated expressions of the respective method). -/
+def setCountWith (density : Rat → Int → Int → Int) (tooMany : Int → Int → Int → Bool)
+    (dens : Option Rat) (number : Option Int) (N1 N2 : Nat) (current : Int) : Int :=
+  let k := match dens, number with
+    | some d, _ => density d N1 N2
+    | none, some k => k
+    | none, none => current
+  if tooMany k N1 N2 then current else k
+
+def setCount := setCountWith setDensityCount setTooMany
+def setCountSparse := setCountWith sparseDensityCount sparseTooMany
+
+/-- `RandomlySetCrossLinks` / `RandomlySetCrossLinks_sparse` (the same loops, the second one
+written in Python): new empty cross matrix, `k` random links (`range(k)` is empty for
+`k ≤ 0`), written back by `overwriteAdjacency`.  Returns the adjacency, the cross matrix and
+the number of links set. -/
+def randomlySetCrossLinks (A : Adj) (nodes1 nodes2 : List Nat) (k : Int)
+    (draws : List (Nat × Nat)) : Adj × Adj × Nat :=
+  let R := crossSetRun k.toNat draws (fun _ _ => false) 0
+  (overwrite A R.1 nodes1 nodes2, R.1, R.2)
+
+/-- `number_swaps = NODE(swaps * number_cross_links)` (truncation of a non-negative product) -/
+def swapCount (swaps : Rat) (links : Nat) : Nat := (Rat.floor (swaps * (links : Rat))).toNat
+
+/-- `RandomlyRewireCrossLinks`: cross block, its list of ones, the kernel, write back. -/
+def randomlyRewireCrossLinks (A : Adj) (nodes1 nodes2 : List Nat) (swaps : Nat)
+    (draws : List (Nat × Nat)) : Option (Adj × CrossSt) :=
+  let C := crossBlock A nodes1 nodes2
+  (crossRun swaps draws ⟨C, onesList nodes1.length nodes2.length C, 0⟩).map fun st =>
+    (overwrite A st.C nodes1 nodes2, st)
+
+/-- `Network.set_edge_list(edge_list, n_nodes=N)` of an undirected network (the second half of
+`Network.randomly_rewire`): symmetrised COO matrix of shape `(N, N)`, repeated entries
+collapsed to 1; `none` = ValueError of `coo_matrix` for an index `≥ N`. -/
+def fromEdges (N : Nat) (edges : List (Nat × Nat)) : Option Adj :=
+  if edges.all fun e => decide (e.1 < N) && decide (e.2 < N) then
+    some fun a b => edges.any fun e => (e.1 == a && e.2 == b) || (e.2 == a && e.1 == b)
+  else none
+
+/-- `set_random_links_by_distance`: `A = (p >= 0.5 * (P + P.T))`, `fill_diagonal(A, 0)`;
+generic in the number type (`ge`, `half`, `add` are float64 operations in the code). -/
+def distKernelG {α : Type} (ge : α → α → Bool) (half : α → α) (add : α → α → α)
+    (p P : Nat → Nat → α) : Adj :=
+  fun i j => if i = j then false else ge (p i j) (half (add (P i j) (P j i)))
+
+/-- the same on exact rationals (what the driver evaluates; the harness sends dyadic `P`
+and the exact value of the float `p`, for which the float operations are exact) -/
+def distKernel (p P : Nat → Nat → Rat) : Adj :=
+  distKernelG (fun a b => decide (b ≤ a)) (fun x => (1 / 2 : Rat) * x) (· + ·) p P
 
 end Pyunicorn.Random
